@@ -1341,6 +1341,22 @@ func toFloat64(v interface{}) (float64, error) {
 		return float64(val), nil
 	case int64:
 		return float64(val), nil
+	case int32:
+		return float64(val), nil
+	case int16:
+		return float64(val), nil
+	case int8:
+		return float64(val), nil
+	case uint:
+		return float64(val), nil
+	case uint64:
+		return float64(val), nil
+	case uint32:
+		return float64(val), nil
+	case uint16:
+		return float64(val), nil
+	case uint8:
+		return float64(val), nil
 	case string:
 		f, err := strconv.ParseFloat(val, 64)
 		if err != nil {
